@@ -380,6 +380,7 @@ func main() {
 	o.Rule = "inputs: keys of every length 0..80 x byte classes {00,7f,80,ff,random} + random keys up to 300 bytes + a few KiB-sized keys + composite routing keys; " +
 		"token strings across and beyond the int64 / 2^127 ranges incl. malformed; byte-string pairs sharing prefixes; prepared-statement metadata with 1..5 key columns of 18 CQL types " +
 		"(v4 pk indexes and metadata-by-name, duplicates, missing columns, bad indexes, Marshal errors, nil values). " +
+		"one Query / Batch handle through random sequences of Bind / RoutingKey / GetRoutingKey / token-aware Pick / Release+reuse / entry replacement, each answer compared with the key of the values bound at that time. " +
 		"distinct = distinct Coq case term; non-trivial = key/string non-empty resp. a routing key with at least one component"
 	n := 100 * o.Scale
 
@@ -825,6 +826,14 @@ func main() {
 		sessionCase(o, i)
 	}
 
+	// ---------------------------------------------------------------- one handle, many calls
+	for i := 0; i < n; i++ {
+		querySeqCase(o, i)
+		if i%2 == 0 {
+			batchSeqCase(o, i)
+		}
+	}
+
 	// ---------------------------------------------------------------- monitor-only sweeps (no Coq cases)
 	if o.Only < 0 {
 		// every key of one and two bytes, and every byte value at every tail position after 0..2 full blocks
@@ -1149,5 +1158,310 @@ func sessionCase(o *hlib.Out, i int) {
 				routingMonitor(o, idx, serial, b, err, pan)
 			}
 		}
+	}
+}
+
+// ---- handle reuse: the same *Query / *Batch through several Bind / RoutingKey / GetRoutingKey / Pick / Release
+// calls in every order; every GetRoutingKey result is compared with the key of the values bound AT THAT TIME.
+
+// a value of a given CQL type: redraw until the generator yields that type
+func genOfType(r *hlib.Rng, t gocql.TypeInfo) interface{} {
+	for k := 0; k < 600; k++ {
+		if tv := genTyped(r); tv.typ.Type() == t.Type() {
+			return tv.val
+		}
+	}
+	return nil
+}
+
+type seqTable struct {
+	stmt    string
+	names   []string
+	cinfo   []gocql.ColumnInfo
+	pkNames []string
+	pkey    []int
+	static  string // the five leading arguments of CQuerySeq / CBatchSeq
+}
+
+func newSeqTable(o *hlib.Out, tag string, i int) (*seqTable, *gocql.Session) {
+	r := o.Rng
+	t := &seqTable{stmt: fmt.Sprintf("SELECT * FROM t WHERE %s%d = ?", tag, i)}
+	npk := 1 + r.Intn(3)
+	type bcol struct {
+		name string
+		typ  gocql.TypeInfo
+	}
+	var cols []bcol
+	tm := &gocql.TableMetadata{Keyspace: "ks", Name: "t"}
+	for k := 0; k < npk; k++ {
+		c := bcol{fmt.Sprintf("pk%d", k), genTyped(r).typ}
+		cols = append(cols, c)
+		t.pkNames = append(t.pkNames, c.name)
+		tm.PartitionKey = append(tm.PartitionKey, &gocql.ColumnMetadata{Keyspace: "ks", Table: "t", Name: c.name, ComponentIndex: k, Type: c.typ})
+	}
+	for k := r.Intn(3); k > 0; k-- {
+		cols = append(cols, bcol{fmt.Sprintf("c%d", k), genTyped(r).typ})
+	}
+	for k := len(cols) - 1; k > 0; k-- {
+		j := r.Intn(k + 1)
+		cols[k], cols[j] = cols[j], cols[k]
+	}
+	for _, c := range cols {
+		t.names = append(t.names, c.name)
+		t.cinfo = append(t.cinfo, gocql.ColumnInfo{Keyspace: "ks", Table: "t", Name: c.name, TypeInfo: c.typ})
+	}
+	if r.Bool() { // protocol v4 pk indexes; otherwise the metadata path
+		for _, pn := range t.pkNames {
+			for k, c := range cols {
+				if c.name == pn {
+					t.pkey = append(t.pkey, k)
+				}
+			}
+		}
+	}
+	km := &gocql.KeyspaceMetadata{Name: "ks", Tables: map[string]*gocql.TableMetadata{"t": tm}}
+	other := []gocql.ColumnInfo{{Keyspace: "ks", Table: "t", Name: "x", TypeInfo: nt(gocql.TypeInt)}, {Keyspace: "ks", Table: "t", Name: "y", TypeInfo: nt(gocql.TypeInt)},
+		{Keyspace: "ks", Table: "t", Name: "z", TypeInfo: nt(gocql.TypeInt)}}
+	s := gocql.VerifC09NewSession([]gocql.VerifC09Prepared{{Stmt: t.stmt, ColCount: len(cols), Columns: t.cinfo, PKeyColumns: t.pkey, Keyspace: "ks", Table: "t"},
+		{Stmt: "INSERT other", ColCount: 3, Columns: other, PKeyColumns: []int{0}, Keyspace: "ks", Table: "t"}},
+		[]*gocql.KeyspaceMetadata{km})
+	t.static = fmt.Sprintf("%s %s %s false %s", hlib.Z(int64(len(cols))), strLists(t.names), intsZ(t.pkey), hlib.Some(strLists(t.pkNames)))
+	return t, s
+}
+
+func (t *seqTable) genVals(r *hlib.Rng) []interface{} {
+	vals := make([]interface{}, len(t.cinfo))
+	for k, c := range t.cinfo {
+		vals[k] = genOfType(r, c.TypeInfo)
+	}
+	if r.Chance(5) {
+		vals[r.Intn(len(vals))] = nil
+	} else if r.Chance(4) {
+		vals[r.Intn(len(vals))] = badValue{3}
+	}
+	if r.Chance(4) {
+		vals = vals[:r.Intn(len(vals))]
+	}
+	return vals
+}
+
+func (t *seqTable) per(vals []interface{}) []mres {
+	per := make([]mres, len(t.cinfo))
+	for k := range per {
+		per[k] = mres{err: true}
+		if k < len(vals) {
+			per[k] = marshal(t.cinfo[k].TypeInfo, vals[k])
+		}
+	}
+	return per
+}
+
+func perTerm(per []mres) string {
+	ss := make([]string, len(per))
+	for k, m := range per {
+		ss[k] = m.term()
+	}
+	return hlib.List(ss)
+}
+
+// the serialized partition-key components for these values, when every one is bound and serializes
+func (t *seqTable) expected(vals []interface{}) ([][]byte, bool) {
+	if len(vals) != len(t.cinfo) {
+		return nil, false
+	}
+	per := t.per(vals)
+	var serial [][]byte
+	for _, pn := range t.pkNames {
+		for k, nm := range t.names {
+			if nm == pn {
+				if per[k].err {
+					return nil, false
+				}
+				serial = append(serial, per[k].b)
+				break
+			}
+		}
+	}
+	return serial, true
+}
+
+// what the handle must answer now
+func seqMonitor(o *hlib.Out, idx int, what string, t *seqTable, explicit []byte, skip bool, vals []interface{}, b []byte, err error, pan bool) {
+	switch {
+	case explicit != nil:
+		if pan || err != nil || !bytes.Equal(b, explicit) || b == nil {
+			o.Violate(idx, "routing-key-explicit", "", fmt.Sprintf("%s: explicit routing key %x set, GetRoutingKey returned %x,%v (panic %v)", what, explicit, b, err, pan), nil)
+		}
+	case skip:
+		if pan || err != nil || b != nil {
+			o.Violate(idx, "routing-key-binding", "", fmt.Sprintf("%s: binding callback without values, GetRoutingKey returned %x,%v (panic %v)", what, b, err, pan), nil)
+		}
+	default:
+		if serial, ok := t.expected(vals); ok {
+			if len(serial) == 1 && serial[0] == nil && b == nil && err == nil && !pan {
+				return
+			}
+			n0 := len(o.Violations)
+			routingMonitor(o, idx, serial, b, err, pan)
+			for k := n0; k < len(o.Violations); k++ {
+				o.Violations[k].Kind = "routing-key-current-values"
+				o.Violations[k].Detail = what + " (key must be built from the values bound at the time of the call): " + o.Violations[k].Detail
+			}
+		}
+	}
+}
+
+var tokenAware = gocql.TokenAwareHostPolicy(gocql.RoundRobinHostPolicy())
+
+func querySeqCase(o *hlib.Out, i int) {
+	r := o.Rng
+	t, s := newSeqTable(o, "qseq", i)
+	idx := o.NCases()
+	bindFn := func(*gocql.QueryInfo) ([]interface{}, error) { return nil, errBind }
+	var q *gocql.Query
+	var explicit []byte
+	var hasBinding bool
+	var vals []interface{}
+	fresh := func() {
+		explicit = nil
+		hasBinding = r.Chance(12)
+		if hasBinding {
+			vals = nil
+			q = s.Bind(t.stmt, bindFn)
+		} else {
+			vals = t.genVals(r)
+			q = s.Query(t.stmt, vals...)
+		}
+	}
+	fresh()
+	init := fmt.Sprintf("(mkq None %s %s %s)", hlib.Bool(hasBinding), perTerm(t.per(vals)), hlib.Z(int64(len(vals))))
+	var ops, outs []string
+	step := 0
+	get := func() {
+		b, err, pan := guarded(q.GetRoutingKey)
+		ops = append(ops, "QGet")
+		outs = append(outs, rkTerm(b, err, pan))
+		retain(idx, b)
+		seqMonitor(o, idx, fmt.Sprintf("Query handle, call %d of %v", step, ops), t, explicit, hasBinding && len(vals) == 0, vals, b, err, pan)
+	}
+	bind := func() {
+		switch {
+		case r.Chance(10):
+			vals = nil
+		case r.Chance(15) && vals != nil:
+			vals = append([]interface{}{}, vals...) // the same values again
+		default:
+			vals = t.genVals(r)
+		}
+		q.Bind(vals...)
+		ops = append(ops, fmt.Sprintf("(QBind %s %s)", perTerm(t.per(vals)), hlib.Z(int64(len(vals)))))
+	}
+	nops := 3 + r.Intn(8)
+	for step = 0; step < nops; step++ {
+		switch c := r.Intn(100); {
+		case c < 35:
+			get()
+		case c < 65:
+			bind()
+		case c < 75:
+			explicit = nil
+			if r.Bool() {
+				explicit = r.Bytes(1 + r.Intn(5))
+			}
+			q.RoutingKey(explicit)
+			ops = append(ops, "(QRoutingKey "+optBytes(explicit)+")")
+		case c < 90:
+			func() {
+				defer func() { recover() }()
+				tokenAware.Pick(q)
+			}()
+			ops = append(ops, "QPick")
+		default:
+			q.Release()
+			fresh()
+			ops = append(ops, fmt.Sprintf("(QFresh %s %s %s)", hlib.Bool(hasBinding), perTerm(t.per(vals)), hlib.Z(int64(len(vals)))))
+		}
+	}
+	// always: ask, bind other values, ask again
+	get()
+	bind()
+	step++
+	get()
+	if got := o.Case("query-handle-sequence", true, fmt.Sprintf("CQuerySeq %s %s %s %s", t.static, init, hlib.List(ops), hlib.List(outs))); got != idx {
+		panic("harness: case index drifted")
+	}
+}
+
+func batchSeqCase(o *hlib.Out, i int) {
+	r := o.Rng
+	t, s := newSeqTable(o, "bseq", i)
+	idx := o.NCases()
+	bt := s.NewBatch(gocql.LoggedBatch)
+	bindFn := func(*gocql.QueryInfo) ([]interface{}, error) { return nil, errBind }
+	var explicit []byte
+	var vals []interface{}
+	hasFirst, firstBinding := false, false
+	var ops, outs []string
+	step := 0
+	get := func() {
+		b, err, pan := guarded(bt.GetRoutingKey)
+		ops = append(ops, "BGet")
+		outs = append(outs, rkTerm(b, err, pan))
+		retain(idx, b)
+		what := fmt.Sprintf("Batch handle, call %d of %v", step, ops)
+		if !hasFirst && explicit == nil {
+			if pan || err != nil || b != nil {
+				o.Violate(idx, "routing-key-empty-batch", "", fmt.Sprintf("%s: empty batch returned %x,%v (panic %v)", what, b, err, pan), nil)
+			}
+			return
+		}
+		seqMonitor(o, idx, what, t, explicit, firstBinding, vals, b, err, pan)
+	}
+	setFirst := func() {
+		nb := r.Chance(10)
+		nv := t.genVals(r)
+		switch {
+		case !hasFirst && nb:
+			bt.Bind(t.stmt, bindFn)
+			nv = nil
+		case !hasFirst:
+			bt.Query(t.stmt, nv...)
+		case !firstBinding && r.Bool():
+			bt.Entries[0].Args = nv // in place
+			nb = false
+		default:
+			bt.Entries[0] = gocql.BatchEntry{Stmt: t.stmt, Args: nv}
+			nb = false
+		}
+		hasFirst, firstBinding, vals = true, nb, nv
+		ops = append(ops, fmt.Sprintf("(BSetFirst %s %s %s)", hlib.Bool(nb), perTerm(t.per(nv)), hlib.Z(int64(len(nv)))))
+	}
+	nops := 3 + r.Intn(7)
+	for step = 0; step < nops; step++ {
+		switch c := r.Intn(100); {
+		case c < 40:
+			get()
+		case c < 70:
+			setFirst()
+		case c < 85 && hasFirst:
+			bt.Query("INSERT other", 1, 2, 3)
+			ops = append(ops, "BAppend")
+		case c < 93:
+			explicit = nil
+			if r.Bool() {
+				explicit = r.Bytes(1 + r.Intn(5))
+			}
+			gocql.VerifC09BatchSetRoutingKey(bt, explicit)
+			ops = append(ops, "(BExplicit "+optBytes(explicit)+")")
+		default:
+			get()
+		}
+	}
+	get()
+	setFirst()
+	step++
+	get()
+	if got := o.Case("batch-handle-sequence", true, fmt.Sprintf("CBatchSeq %s %s %s", t.static, hlib.List(ops), hlib.List(outs))); got != idx {
+		panic("harness: case index drifted")
 	}
 }
